@@ -381,6 +381,17 @@ class SBool:
 
     __radd__ = __add__
 
+    def __sub__(self, o):
+        return SInt(zi(self)) - o
+
+    def __rsub__(self, o):
+        return o - SInt(zi(self))
+
+    def __mul__(self, o):
+        return SInt(zi(self)) * o
+
+    __rmul__ = __mul__
+
     def __repr__(self):
         return f"SBool({self.e})"
 
